@@ -2475,13 +2475,6 @@ class PyCdlib:
         if self.eltorito_boot_catalog is not None:
             self._link_eltorito(extent_to_inode)
 
-            # Now that everything has a dirrecord, see if we have a boot
-            # info table.
-            self._check_for_eltorito_boot_info_table(self.eltorito_boot_catalog.initial_entry.inode)
-            for sec in self.eltorito_boot_catalog.sections:
-                for entry in sec.section_entries:
-                    self._check_for_eltorito_boot_info_table(entry.inode)
-
         # The PVD is finished.  Now look to see if we need to parse the SVD.
         for svd in self.svds:
             if (svd.flags & 0x1) == 0 and svd.escape_sequences[:3] in (b'%/@', b'%/C', b'%/E'):
@@ -2526,6 +2519,16 @@ class PyCdlib:
         if self._has_udf:
             self._parse_udf_descriptors()
             self._walk_udf_directories(extent_to_inode)
+
+        # Now that every namespace has been walked, see if we have a boot info
+        # table.  (A boot file without an ISO9660 name only gets its real
+        # length from its Joliet or UDF name, and the checksum in the table
+        # runs over the whole file.)
+        if self.eltorito_boot_catalog is not None:
+            self._check_for_eltorito_boot_info_table(self.eltorito_boot_catalog.initial_entry.inode)
+            for sec in self.eltorito_boot_catalog.sections:
+                for entry in sec.section_entries:
+                    self._check_for_eltorito_boot_info_table(entry.inode)
 
         # Now we look for the 'version' volume descriptor, common on ISOs made
         # with genisoimage or mkisofs.  This volume descriptor doesn't have any
